@@ -59,7 +59,7 @@ def check_l_restriction(repo, chk):
     fn = hd.methods.get("get_ls_list")
     if fn is None:
         raise AnalysisError("anchor vanished: HelicityDecay.get_ls_list")
-    base = ((sp.Integer(0), sp.Integer(0)), (sp.Integer(1), sp.Integer(1)), (sp.Integer(2), sp.Integer(1)), (sp.Integer(2), sp.Integer(2)))
+    base = tuple((sp.Integer(l_), sp.Integer(s_)) for l_, s_ in ((0, 0), (0, 1), (1, 1), (2, 1), (2, 2), (3, 2)))
     parents = [c for c in hd.mro[1:] if "get_ls_list" in c.methods]
     if not parents:
         raise AnalysisError("HelicityDecay.get_ls_list has no base implementation any more")
